@@ -1,7 +1,6 @@
 package main
 
 import (
-	"os"
 	"go/token"
 	"fmt"
 	"go/ast"
@@ -199,15 +198,9 @@ func (vc *VC) specEnv(st, old *State) *SpecEnv {
 }
 
 func (vc *VC) checkInvs(st *State, ls *LoopSpec, kind string, entry *State, n int, where string) {
-	if os.Getenv("GOVC_DEBUG_LOOPS") != "" {
-		fmt.Fprintf(os.Stderr, "checkInvs %s %s loop%d invs=%d dry=%d quiet=%d\n", vc.fi.Key, kind, n, len(ls.Invs), vc.dry, vc.quiet)
-	}
 	env := vc.specEnv(st, vc.entry)
 	env.lentry = entry
 	for _, inv := range ls.Invs {
-		if os.Getenv("GOVC_DEBUG_LOOPS") != "" {
-			fmt.Fprintf(os.Stderr, "   inv props=%v wanted=%v %s\n", inv.Props, vc.wanted(inv.Props), inv.Text[:min(60, len(inv.Text))])
-		}
 		if !vc.wanted(inv.Props) {
 			continue
 		}
